@@ -12,8 +12,9 @@ import (
 
 // C03 — assertion content is bound to the originating request, audience and user.
 
-func c03Case(r *core.Run, idx int, rng *rand.Rand) {
-	const wl = "callback_success"
+func c03Case(r *core.Run, idx int, rng *rand.Rand) { c03CaseWL(r, "callback_success", idx, rng) }
+
+func c03CaseWL(r *core.Run, wl string, idx int, rng *rand.Rand) {
 	canary := fmt.Sprintf("MK%dx", idx)
 	sc := randScenario(rng, canary, idx%5 != 0)
 	if rng.Intn(12) == 0 {
@@ -80,7 +81,7 @@ func init() {
 		TimeoutQuick: 5 * time.Minute, TimeoutThorough: 30 * time.Minute,
 		Build: func(c *Ctx) []core.Workload {
 			r := c.Run
-			r.Rule = "each case stores a completed request S (request ID, consumer URL, RelayState, application id drawn from legal XML characters incl. metacharacters, CR/LF/TAB, blanks, non-ASCII) and a user U (each standard attribute set/unset, 0-4 custom attributes with 0-3 values) under a random configuration (binding, static or host-derived issuer, time layout, signature algorithm), calls the login callback and compares every field of the decoded Success response - extracted twice, with etree and with expat - with a reference record computed by the harness. Distinct = (binding, layout, issuer mode, attribute counts, special characters present)."
+			r.Rule = "each case stores a completed request S (request ID, consumer URL, RelayState, application id drawn from legal XML characters incl. metacharacters, CR/LF/TAB, blanks, non-ASCII) and a user U (each standard attribute set/unset, 0-4 custom attributes with 0-3 values) under a random configuration (binding, static or host-derived issuer, time layout, signature algorithm), calls the login callback and compares every field of the decoded Success response - extracted twice, with etree and with expat - with a reference record computed by the harness. The workload is repeated with the process time zone set to +02:00 and -05:00. Distinct = (binding, layout, issuer mode, attribute counts, special characters present)."
 			r.Assume("RelayState in auto-submit forms is compared modulo CR/CRLF -> LF (HTML newline normalisation is parser dependent)")
 			r.Assume("IssueInstant is judged against the wall-clock bracket around the call with 1 s slack")
 			r.Require("success_replies", int64(c.Pick(500, 6000)))
@@ -88,7 +89,21 @@ func init() {
 			r.Require("delivery_form", 50)
 			r.Require("delivery_redirect", 50)
 			r.Require("delivery_xml-body", 5)
-			return []core.Workload{{Name: "callback_success", N: c.Pick(700, 8000), Fn: c03Case}}
+			zone := func(name string, off int) func() {
+				return func() {
+					if off == 0 {
+						time.Local = time.UTC
+					} else {
+						time.Local = time.FixedZone(name, off)
+					}
+				}
+			}
+			return []core.Workload{
+				{Name: "callback_success", N: c.Pick(700, 8000), Before: zone("UTC", 0), Fn: c03Case},
+				// the process time zone must not leak into the (UTC) instants of the assertion
+				{Name: "callback_success_tz_plus2", N: c.Pick(100, 1000), Before: zone("P2", 2*3600), Fn: func(r *core.Run, idx int, rng *rand.Rand) { c03CaseWL(r, "callback_success_tz_plus2", idx, rng) }},
+				{Name: "callback_success_tz_minus5", N: c.Pick(100, 1000), Before: zone("M5", -5*3600), Fn: func(r *core.Run, idx int, rng *rand.Rand) { c03CaseWL(r, "callback_success_tz_minus5", idx, rng) }},
+			}
 		},
 		After: func(c *Ctx) { verify.Py.Close() },
 	})
